@@ -467,6 +467,11 @@ def dispatch (toks : List String) : String :=
      | _ => "bad-op")
   | ["prec", flag, conf, dflt] =>
     Conf.effective (if flag == "-" then none else some flag) (if conf == "-" then none else some conf) dflt
+  | ["validname", n] => showBool (Wfl.validName (unh n))
+  | ["validpath", n] => showBool (Wfl.validPath (unh n))
+  | ["targetwd", t, w] => toh (Wfl.targetWd (if t == "-" then none else some (unh t)) (unh w))
+  | ["mapname", b, i] => toh (Wfl.mapName (unh b) (nat! i))
+  | "addall" :: names => (match Wfl.addAll [] (names.map unh) with | .ok l => "ok " ++ toString l.length | .error _ => "err")
   | ["conf.tryconv", v] => showCfg (Conf.tryConv (unh v))
   | "conf.ops" :: ops => confOps {} ops []
   | "glob" :: pat :: name :: [] => showBool (Glob.globMatch (unh pat) (unh name))
